@@ -398,12 +398,12 @@ impl PsFunc {
                 PsOp::Roll => {
                     let j = stack.pop().ok_or(PostScriptError::StackUnderflow)? as isize;
                     let n = stack.pop().ok_or(PostScriptError::StackUnderflow)? as usize;
-                    let start = stack.len() - n;
+                    let start = stack.len().checked_sub(n).ok_or(PostScriptError::StackUnderflow)?;
                     let slice = &mut stack[start..];
-                    if j > 0 {
-                        slice.rotate_right(j as usize);
-                    } else {
-                        slice.rotate_left(-j as usize);
+                    if n > 0 {
+                        // rolling by j is the same as rolling by j modulo n
+                        let j = j.rem_euclid(n as isize) as usize;
+                        slice.rotate_right(j);
                     }
                 }
                 PsOp::Index => {
@@ -436,6 +436,9 @@ impl PsFunc {
     pub fn parse(s: &str) -> Result<Self, PdfError> {
         let start = s.find('{').ok_or(PdfError::PostScriptParse)?;
         let end = s.rfind('}').ok_or(PdfError::PostScriptParse)?;
+        if end < start {
+            return Err(PdfError::PostScriptParse);
+        }
 
         let ops: Result<Vec<_>, _> = s[start + 1 .. end].split_ascii_whitespace().map(PsOp::parse).collect();
         Ok(PsFunc { ops: ops? })
